@@ -87,6 +87,8 @@ var lockHeldAtReturn = map[string]string{
 	"acquireWriteLock": "acquire helper: returns nil with writeLock held, the caller unlocks (R-C01-7 decides both halves)",
 }
 
+var handlersMemo map[*ssa.Function]bool
+
 func runGeneric(r *Report, prop string) {
 	files := anchorFiles(prop, r.P.Repo)
 	if len(files) == 0 {
@@ -98,7 +100,7 @@ func runGeneric(r *Report, prop string) {
 		r.Note("%s", n)
 	}
 	runLockOrder(r, prop, files)
-	nf, nLock, nErr, nNil, nBound, nRel, nBuf := 0, 0, 0, 0, 0, 0, 0
+	nf, nLock, nErr, nNil, nBound, nRel, nBuf, nCloseLock := 0, 0, 0, 0, 0, 0, 0, 0
 	for _, f := range r.P.Funcs {
 		if len(f.Blocks) == 0 {
 			continue
@@ -117,6 +119,10 @@ func runGeneric(r *Report, prop string) {
 		nBound += runConstBoundUnchecked(r, g(13), f)
 		nRel += runReleasedBufferEscapes(r, g(14), f)
 		nBuf += runReadAheadDiscarded(r, g(15), f)
+		if handlersMemo == nil {
+			handlersMemo = cleanHandlers(r.P)
+		}
+		nCloseLock += runCloseWaitsForIOLock(r, g(16), f, handlersMemo)
 		// G9: every read->write copy loop of the anchored code (discovered by shape: a Read in a loop
 		// whose buffer is handed to a Write in the same loop) keeps the copy-loop obligations
 		Instrs(f, func(in ssa.Instruction) {
@@ -405,6 +411,7 @@ func runGeneric(r *Report, prop string) {
 	}
 	r.Pass(g(13), token.NoPos, fmt.Sprintf("%d constant-bound slice/index operations on strings and slices scanned; each is applied to a value built here with that length, a parameter, or a value whose length is tested on the way", nBound), prop, "generic:const-bound-scan")
 	r.Pass(g(14), token.NoPos, fmt.Sprintf("%d give-backs of a buffer to a pool scanned: none of the buffers is returned, sent or stored in a field before it is given back; %d per-call buffered readers scanned (G15)", nRel, nBuf), prop, "generic:released-buffer-scan")
+	r.Pass(g(16), token.NoPos, fmt.Sprintf("close paths of the anchored code scanned: %d acquisition(s) of a lock held across blocking I/O, each after the endpoint was closed", nCloseLock), prop, "generic:close-io-lock-scan")
 	_ = sort.Strings
 	_ = nErr
 	_ = nNil
